@@ -501,7 +501,7 @@ func TestHarness(t *testing.T) {
 	// search: after a model/implementation disagreement, look for a concrete history on
 	// which the implementation itself violates a property (monitors only, no model).
 	search := func(prefix []string, qs []queueSpec, seed uint64, only string, focus bool) ([]string, *failure) {
-		for try := 0; try < 40; try++ {
+		for try := 0; try < 64; try++ {
 			g := &generator{rng: hx.NewRand(seed*1000 + uint64(try)), queues: qs, nextC: 1000, nextK: 1000, nextTok: 1000, focus: focus, resync: try%4 == 1}
 			lines := append([]string(nil), prefix...)
 			r := &run{drv: drv, noModel: true, onlyProp: only, prev: map[string]string{}, flags: map[string]bool{}, streams: map[int]*streamMon{}, doneTask: map[int]string{}, syncRet: map[string]int64{}, issues: map[string]int{}, issuedTo: map[string]string{}}
